@@ -28,7 +28,9 @@ def tie_applicable(p, exact):
     is inexact or Average/Deviate are involved (the kernels sum in another order)"""
     if not any(o[0] == "fillnp" for o in p["ops"]):
         return True
-    return exact and not base.has_kind(p["ops"][0][1], ["Average", "Deviate"])
+    # (exact-safe certifies the row order only: a batch is bit-exact in numpy's order as well only when
+    # every value is a small dyadic by construction)
+    return exact and bool(p.get("meta", {}).get("dyadic")) and not base.has_kind(p["ops"][0][1], ["Average", "Deviate"])
 
 
 def gen_vectorised(r, i, tier):
@@ -67,6 +69,8 @@ def gen_vectorised(r, i, tier):
         elif c < 0.78:
             a, b = r.randrange(npool), r.randrange(npool)
             ops.append(("iadd", a, b))
+            if b in frozen:
+                frozen.add(a)        # a now holds bins copied from a function-less reload
         elif c < 0.84:
             a = r.randrange(npool)
             ops.append(("mul", a, r.choice([0.5, 2.0, 0.25, 3.0]))); derive(a); npool += 1
